@@ -136,6 +136,12 @@ impl W19 {
                     pair_type: PairType::ConstantProduct, token_factory_lp: false }, &[]));
                 if r.is_none() { return false; }
                 if let Some(p) = self.lookup_pair(a, b) { self.born.entry(p.contract_addr.clone()).or_insert(k as i64); self.provide(&Addr::unchecked(p.contract_addr), a, b); }
+                // afterwards the factory's owner registers the pair's first native asset with OTHER decimals (the allow-list is overwritten):
+                // existing entries keep the decimals their pools were created with - registry and child must keep agreeing
+                if let AssetInfo::NativeToken { denom } = self.u[a].clone() {
+                    let fac = self.b.factory.clone();
+                    let _ = catch(|| self.b.app.execute_contract(adm.clone(), fac, &f::ExecuteMsg::AddNativeTokenDecimals { denom, decimals: 7 + (k % 5) as u8 }, &[]));
+                }
                 true
             }
             Op::RemovePair(a, b) => { let fac = self.b.factory.clone(); let infos = [self.u[a].clone(), self.u[b].clone()];
